@@ -954,7 +954,11 @@ impl<'p, W, R, T> CompilationScope<'p, W, R, T> {
                     }
                     for (param, arg) in spec.param_types.iter().zip(args) {
                         let arg_type = self.type_of(arg)?;
-                        if param.bind_in_assignment(&arg_type).is_none() {
+                        // a callable value has no type parameters of its own
+                        if !param
+                            .bind_in_assignment(&arg_type)
+                            .map_or(false, |bind| bind.binds_only(None))
+                        {
                             return Err(CompilationError::InvalidArgumentType {
                                 expected: param.clone(),
                                 got: arg_type,
@@ -979,6 +983,9 @@ impl<'p, W, R, T> CompilationScope<'p, W, R, T> {
                                 },
                             )?)
                             .ok_or(CompilationError::CallableBindingFailed)?;
+                    }
+                    if !bind.binds_only(func.generic_params.as_ref()) {
+                        return Err(CompilationError::CallableBindingFailed);
                     }
                     return Ok(func.rtype(&bind));
                 }
